@@ -59,6 +59,10 @@ def make_fit_file(ctx, rng, d, n_rec, with_fluxes, n_models=None, many=False, eq
             valid = [1] * nb
             flux = 10 ** rng.uniform(-1, 2, nb)
             sname = 'src_%d_%s' % (i, 'x' * int(rng.integers(0, 12)))
+            if i == 0:
+                first_name = sname
+            if i == 1 and n_rec >= 3 and not equal_sizes:
+                sname = first_name          # the same object listed on two lines (other photometry): two records with one source name
             xy = (rng.uniform(0, 360), rng.uniform(-90, 90))
             if equal_sizes:
                 # the same photometry listed under fixed-width names: records of exactly the same size (the size of a pickled
